@@ -79,8 +79,10 @@ def run(rep, tier):
         fns[n] = cands[0]
 
     # any other function of the TU that touches owner_id_ must be in the table
+    # (a helper or local lambda that pikafacts spliced into a table function is read there, in place)
+    spliced = set(str(x.get("callee")) for n in names for x in (fns[n].raw.get("inlined") or []))
     for f in F.fns:
-        if f.qname not in names and f.kind not in ("ctor", "dtor"):
+        if f.qname not in names and f.qname not in spliced and f.kind not in ("ctor", "dtor"):
             if any(ev.get("k") == "read" and ev["e"].get("name") == "owner_id_" for _, _, ev in f.all_events()):
                 raise AnalysisBroken("function %s accesses owner_id_ but is not in the C06 table" % f.qname)
 
